@@ -372,6 +372,38 @@ private:
         {
             ctx_manager->get(level).actual_block_length = actual_block_length;
         }
+
+        validate_block_length_representation(level);
+    }
+
+    // header is validated at this point
+    template<typename MessageOrGroup>
+    void validate_block_length_representation(const MessageOrGroup& level) const
+    {
+        std::string_view level_name{"message"};
+        std::string_view header_type{schema->header_type};
+        if constexpr(std::is_same_v<MessageOrGroup, sbe::group>)
+        {
+            level_name = "group";
+            header_type = level.dimension_type;
+        }
+
+        const auto& header =
+            std::get<sbe::composite>(*get_encoding(header_type));
+        const auto& [t, location] =
+            get_level_header_element(header, level_name, "blockLength");
+        const auto block_length = ctx_manager->get(level).actual_block_length;
+        if(!value_fits_into_type(
+               std::to_string(block_length), t.primitive_type))
+        {
+            throw_error(
+                "{}: `blockLength` ({}) cannot be represented by {} header "
+                "`blockLength` type `{}`",
+                level.location,
+                block_length,
+                level_name,
+                t.primitive_type);
+        }
     }
 
     std::size_t get_encoding_size(const sbe::encoding& enc)
